@@ -1,4 +1,5 @@
 import NomtModel.Store.PushChunkExamples
+import NomtModel.Store.PushChunkSeq
 import NomtModel.Props.C16_GenFn
 /-!
 # C16 / C01 (topic: the branch-node encoder as a whole — `BranchNodeBuilder::{new, push, push_chunk}` read back by `get_key`)
@@ -148,6 +149,36 @@ example : ∃ b1, builderPush exNewBuilder3 (key2 0xAB 0x20) 11 4 = some b1 ∧
     (getKey b2.page 0 = some (key2 0xAB 0x20) ∧ getKey b2.page 1 = getKey exBaseNode 1 ∧ getKey b2.page 2 = getKey exBaseNode 2) :=
   ex_of_isSome (x := runR2) _ runR2_some (ex_of_isSome (x := runR3) _ runR3_some
     ⟨runR3_k0, runR3_k1.trans exBase_k1.symm, runR3_k2.trans exBase_k2.symm⟩)
+
+/-- T16.pc-4a **any sequence of `new`, `push`, `push_chunk` calls.**  `BInv b n pc pl last cells keys` is the builder invariant:
+the page has the header and the cells of the `index` items pushed so far, `separator_bit_offset` is the last cell, and
+`keys[j] = get_key(page, j)` for every `j < index`.  `new` establishes it on ANY 4096-byte page (first part); if every call of
+the list meets its precondition in the state it is made in (`RunOK`: `PushPre` / `ChunkPre`, for whatever cells describe that
+state), the whole run does not panic and the invariant holds at the end for `keys ++` the pushed keys / the keys `get_key`
+reads from each chunk's base range, in call order (second part) — so after the last call **`get_key(node, j)` is the `j`-th
+key pushed, for every `j`** (third part: reading the invariant). -/
+theorem T16_branch_builder_seq_rt :
+    (∀ (pg : List Nat) (n pc pl last : Nat), Bytes pg → pg.length = 4096 → n < 65536 → pc < 65536 → pl < 65536 → Fit n pl last →
+      ∃ b, builderNew pg n pc pl = some b ∧ BInv b n pc pl last (fun _ => 0) []) ∧
+    (∀ (n pc pl last : Nat) (ops : List BOp) (b : Builder) (cells : Nat → Nat) (keys : List (Option (List Nat))),
+      BInv b n pc pl last cells keys → RunOK n pc pl last b ops →
+      ∃ b' cells', runOps ops b = some b' ∧ BInv b' n pc pl last cells' (keys ++ ops.flatMap opKeys)) ∧
+    (∀ (b : Builder) (n pc pl last : Nat) (cells : Nat → Nat) (keys : List (Option (List Nat))), BInv b n pc pl last cells keys →
+      keys.length = b.index ∧ ∀ j, j < b.index → keys[j]? = some (getKey b.page j)) :=
+  ⟨fun pg n pc pl last hB hl hn hpc hpl F => BInv.new pg n pc pl last hB hl hn hpc hpl F,
+   fun n pc pl last ops b cells keys I R => runOps_spec n pc pl last ops b cells keys I R,
+   fun _ _ _ _ _ _ _ I => ⟨I.hlen, fun j hj => (I.items j hj).2.2.2⟩⟩
+
+/-- non-vacuity: the invariant of a fresh builder and a one-call run (the chunk of `exChunkPre`) -/
+example : BInv (exNewBuilder 4) 2 2 4 14 (fun _ => 0) [] ∧
+    RunOK 2 2 4 14 (exNewBuilder 4) [BOp.chunk exBaseNode 1 3 [(1, 77)]] :=
+  ⟨⟨exChunkPre.LN, exChunkPre.hoff, by decide, by decide, exChunkPre.FN, by decide, by decide, rfl,
+     fun j hj => absurd hj (Nat.not_lt_zero j)⟩,
+   RunOK.cons _ _ _
+     (fun cOld hL ho => ⟨3, 3, 8, exBaseCells, 8, ⟨hL, ho, exChunkPre.LB, exChunkPre.monoB, exChunkPre.hlastB, exChunkPre.FB,
+       exChunkPre.itemB, exChunkPre.hft, exChunkPre.hto, exChunkPre.hpcB, exChunkPre.hpcN, exChunkPre.hpcnN, exChunkPre.FN,
+       exChunkPre.hcp, exChunkPre.hupd, exChunkPre.hpre⟩⟩)
+     (fun b' _ => RunOK.nil b')⟩
 
 /-- T16.pc-4b **capacity from the gauge**: the hypothesis `Fit n pl last` of T16.pc-2 / T16.pc-3 is the builders' documented
 precondition in the terms of the CURRENT source: `branch::node::body_size(prefix_len, total_separator_lengths, n)` (the
